@@ -121,19 +121,39 @@ class Engine:
             r.model = model
 
     def feasible(self, assumptions):
-        """over-approximate path feasibility (quantified assumptions dropped: exploring an infeasible path is harmless)"""
+        """over-approximate path feasibility (quantified assumptions dropped: exploring an infeasible path is harmless).
+        Results are cached: replayed prefixes ask the same questions again."""
+        qf = [a for a in assumptions if not _has_quantifier(a)]
+        key = tuple(a.get_id() for a in qf)
+        cache = self.__dict__.setdefault("_feas_cache", {})
+        hit = cache.get(key)
+        if hit is not None:
+            return hit[0]
         s = z3.Solver()
         s.set("timeout", 3000)
-        for a in assumptions:
-            if not _has_quantifier(a):
-                s.add(a)
+        for a in qf:
+            s.add(a)
         t0 = time.time()
         r = s.check()
         self.solver_ms += (time.time() - t0) * 1000
+        cache[key] = (r != z3.unsat, qf)  # keep the terms alive so that their ids stay unique
         return r != z3.unsat
 
 
+_QCACHE = {}
+
+
 def _has_quantifier(e):
+    k = e.get_id()
+    hit = _QCACHE.get(k)
+    if hit is not None and hit[1] is not None:
+        return hit[0]
+    r = _has_quantifier_uncached(e)
+    _QCACHE[k] = (r, e)
+    return r
+
+
+def _has_quantifier_uncached(e):
     seen = set()
     todo = [e]
     while todo:
@@ -230,6 +250,9 @@ class Path:
             return True
         if isinstance(goal, bool):
             goal = z3.BoolVal(goal)
+        if z3.is_true(z3.simplify(goal)):  # trivially valid: no solver call
+            self.engine.record(name, "discharged", 0.0, "", None)
+            return True
         st, ms, detail, model = self.engine.check(self.pc + list(extra), goal)
         self.engine.record(name, st, ms, detail, model)
         return st == "discharged"
